@@ -10,13 +10,13 @@ import vlib
 # Proof modules in dependency order (compiled by coqc directly until they are listed in coq/_CoqProject):
 #   C21/PolyModel.v C21/PolySpec.v C21/PolyList.v C21/PolyDict.v C21/PolyKron.v C21/PolyProofs.v
 #   C21/PolyFits.v C21/PolyProofs2.v C21/PolyFitsZ.v C21/PolyFitsZ2.v
-PROOF_MODULES = ["C21/PolyProofs2.vo", "C21/PolyFitsZ2.vo", "C21/PolyRing.vo"]
+PROOF_MODULES = ["C21/PolyProofs2.vo", "C21/PolyFitsZ2.vo", "C21/PolyRing.vo", "C21/PolyRingQ.vo"]
 OBLIGATIONS = ["C21/P_%s.v" % n for n in (
     "repr_int", "repr_rat", "degree_lc_int", "degree_lc_rat", "add_sub_neg_int", "add_sub_neg_rat",
     "mul_generic_int", "mul_generic_rat", "kronecker_correct", "mul_upoly_int", "mul_upoly_rat",
     "pow_int", "pow_rat", "eval_diff_int", "eval_diff_rat", "divides_int", "divides_rat",
     "divides_complete_int", "divides_complete_rat", "pow_rat_simple", "divides_rat_simple",
-    "pow_int_simple", "divides_int_simple", "mul_ring_laws_int",
+    "pow_int_simple", "divides_int_simple", "mul_ring_laws_int", "mul_ring_laws_rat",
     "loops_terminate", "nonvacuous")]
 
 W32 = 1 << 32
